@@ -111,23 +111,20 @@ Lemma orth_form (q11 q12 q21 q22 sg : R) :
   q22 = sg * q11 /\ q21 = - sg * q12.
 Proof. intros H1 H2 H3 H4. split; nsatz. Qed.
 
-(** The algebraic core. [M = (ma mc; mb md)] is the linear part of the map applied to the arc's
-    own frame, [R(C,S) diag(r1,r2)] its decomposition, [sg] the sign of its determinant;
-    (c0,s0) = (cos,sin) of the start angle, (ct,st) of [t * sweep]; (cs,ss) of the new start angle. *)
-Lemma arc_core (ma mb mc md C S r1 r2 sg c0 s0 ct st cs ss : R) :
-  S * S + C * C = 1 -> 0 < r1 -> 0 < r2 -> sg * sg = 1 ->
+(** [M = (ma mc; mb md)] with [M M^T = R(C,S) diag(r1^2, r2^2) R^T] and determinant [sg r1 r2]
+    factors as [R diag(r1,r2) Q] with [Q = (q11 q12; -sg q12, sg q11)] orthogonal. *)
+Lemma arc_frame (ma mb mc md C S r1 r2 sg : R) :
+  S * S + C * C = 1 -> 0 < r1 -> 0 < r2 ->
   ma * ma + mc * mc = r1 * r1 * (C * C) + r2 * r2 * (S * S) ->
   mb * mb + md * md = r1 * r1 * (S * S) + r2 * r2 * (C * C) ->
   ma * mb + mc * md = (r1 * r1 - r2 * r2) * (S * C) ->
   ma * md - mb * mc = sg * (r1 * r2) ->
-  let wx := ma * c0 + mc * s0 in let wy := mb * c0 + md * s0 in
-  let lx := C * wx + S * wy in let ly := - S * wx + C * wy in
-  cs * r1 = lx -> ss * r2 = ly ->
-  let cb := cs * ct - sg * ss * st in let sb := ss * ct + sg * cs * st in
-  r1 * cb * C - r2 * sb * S = ma * (c0 * ct - s0 * st) + mc * (s0 * ct + c0 * st)
-  /\ r1 * cb * S + r2 * sb * C = mb * (c0 * ct - s0 * st) + md * (s0 * ct + c0 * st).
+  exists q11 q12 : R,
+    q11 * q11 + q12 * q12 = 1
+    /\ ma = C * r1 * q11 + sg * S * r2 * q12 /\ mb = S * r1 * q11 - sg * C * r2 * q12
+    /\ mc = C * r1 * q12 - sg * S * r2 * q11 /\ md = S * r1 * q12 + sg * C * r2 * q11.
 Proof.
-  intros H1 Hr1 Hr2 Hsg Ha Hb Hab Hdet wx wy lx ly Hcs Hss cb sb.
+  intros H1 Hr1 Hr2 Ha Hb Hab Hdet.
   (* Q = diag(1/r1,1/r2) R^T M *)
   set (i1 := / r1). set (i2 := / r2).
   assert (Hi1 : i1 * r1 = 1) by (unfold i1; field; lra).
@@ -188,32 +185,60 @@ Proof.
       with ((i1 * r1) * (S * (C * mc + S * md)) + (i2 * r2) * (C * (- S * mc + C * md))) by ring.
     rewrite Hi1, Hi2. replace (1 * (S * (C * mc + S * md)) + 1 * (C * (- S * mc + C * md))) with ((S * S + C * C) * md) by ring.
     rewrite H1. ring. }
-  (* the new start direction is Q u(start) *)
-  assert (Ecs : cs = q11 * c0 + q12 * s0).
-  { apply (Rmult_eq_reg_r r1); [|lra]. rewrite Hcs. unfold lx, wx, wy, q11, q12.
-    replace ((i1 * (C * ma + S * mb) * c0 + i1 * (C * mc + S * md) * s0) * r1)
-      with ((i1 * r1) * (C * (ma * c0 + mc * s0) + S * (mb * c0 + md * s0))) by ring.
-    rewrite Hi1. ring. }
-  assert (Ess : ss = q21 * c0 + q22 * s0).
-  { apply (Rmult_eq_reg_r r2); [|lra]. rewrite Hss. unfold ly, wx, wy, q21, q22.
-    replace ((i2 * (- S * ma + C * mb) * c0 + i2 * (- S * mc + C * md) * s0) * r2)
-      with ((i2 * r2) * (- S * (ma * c0 + mc * s0) + C * (mb * c0 + md * s0))) by ring.
-    rewrite Hi2. ring. }
-  clearbody q11 q12 q21 q22. clear O1 O2 O3 O4 Ha Hb Hab Hdet Hcs Hss.
-  unfold cb, sb. subst cs ss ma mb mc md q22 q21.
-  split.
-  - replace (r1 * ((q11 * c0 + q12 * s0) * ct - sg * (- sg * q12 * c0 + sg * q11 * s0) * st) * C -
-             r2 * ((- sg * q12 * c0 + sg * q11 * s0) * ct + sg * (q11 * c0 + q12 * s0) * st) * S)
+  clearbody q11 q12 q21 q22.
+  exists q11, q12. rewrite E21 in Ema, Emb. rewrite E22 in Emc, Emd.
+  split; [exact O1|]. repeat split; [rewrite Ema|rewrite Emb|rewrite Emc|rewrite Emd]; ring.
+Qed.
+
+(** The algebraic core. (c0,s0) = (cos,sin) of the start angle, (ct,st) of [t * sweep].
+    [l = R^T M u(start)] is the image of the start direction in the frame of the new axes;
+    it is [diag(r1,r2)] applied to a unit vector [(ux,uy)], and the image arc, started at the
+    angle of [(ux,uy)] and swept by [sg * sweep], passes through [M u(start + t sweep)]. *)
+Lemma arc_core (ma mb mc md C S r1 r2 sg c0 s0 ct st : R) :
+  S * S + C * C = 1 -> 0 < r1 -> 0 < r2 -> sg * sg = 1 -> s0 * s0 + c0 * c0 = 1 ->
+  ma * ma + mc * mc = r1 * r1 * (C * C) + r2 * r2 * (S * S) ->
+  mb * mb + md * md = r1 * r1 * (S * S) + r2 * r2 * (C * C) ->
+  ma * mb + mc * md = (r1 * r1 - r2 * r2) * (S * C) ->
+  ma * md - mb * mc = sg * (r1 * r2) ->
+  let wx := ma * c0 + mc * s0 in let wy := mb * c0 + md * s0 in
+  let lx := C * wx + S * wy in let ly := - S * wx + C * wy in
+  exists ux uy : R,
+    ux * ux + uy * uy = 1 /\ lx = r1 * ux /\ ly = r2 * uy
+    /\ (let cb := ux * ct - sg * uy * st in let sb := uy * ct + sg * ux * st in
+        r1 * cb * C - r2 * sb * S = ma * (c0 * ct - s0 * st) + mc * (s0 * ct + c0 * st)
+        /\ r1 * cb * S + r2 * sb * C = mb * (c0 * ct - s0 * st) + md * (s0 * ct + c0 * st)).
+Proof.
+  intros H1 Hr1 Hr2 Hsg H0 Ha Hb Hab Hdet wx wy lx ly.
+  destruct (arc_frame ma mb mc md C S r1 r2 sg H1 Hr1 Hr2 Ha Hb Hab Hdet) as (q11 & q12 & Hq & Ema & Emb & Emc & Emd).
+  exists (q11 * c0 + q12 * s0), (sg * (- q12 * c0 + q11 * s0)).
+  unfold lx, ly, wx, wy. clear Ha Hb Hab Hdet lx ly wx wy. subst ma mb mc md.
+  split; [|split; [|split; [|split]]].
+  - replace ((q11 * c0 + q12 * s0) * (q11 * c0 + q12 * s0) + sg * (- q12 * c0 + q11 * s0) * (sg * (- q12 * c0 + q11 * s0)))
+      with ((q11 * c0 + q12 * s0) * (q11 * c0 + q12 * s0) + (sg * sg) * ((- q12 * c0 + q11 * s0) * (- q12 * c0 + q11 * s0))) by ring.
+    rewrite Hsg.
+    replace ((q11 * c0 + q12 * s0) * (q11 * c0 + q12 * s0) + 1 * ((- q12 * c0 + q11 * s0) * (- q12 * c0 + q11 * s0)))
+      with ((q11 * q11 + q12 * q12) * (s0 * s0 + c0 * c0)) by ring.
+    rewrite Hq, H0. ring.
+  - replace (C * ((C * r1 * q11 + sg * S * r2 * q12) * c0 + (C * r1 * q12 - sg * S * r2 * q11) * s0) +
+             S * ((S * r1 * q11 - sg * C * r2 * q12) * c0 + (S * r1 * q12 + sg * C * r2 * q11) * s0))
+      with ((S * S + C * C) * (r1 * (q11 * c0 + q12 * s0))) by ring.
+    rewrite H1. ring.
+  - replace (- S * ((C * r1 * q11 + sg * S * r2 * q12) * c0 + (C * r1 * q12 - sg * S * r2 * q11) * s0) +
+             C * ((S * r1 * q11 - sg * C * r2 * q12) * c0 + (S * r1 * q12 + sg * C * r2 * q11) * s0))
+      with ((S * S + C * C) * (r2 * (sg * (- q12 * c0 + q11 * s0)))) by ring.
+    rewrite H1. ring.
+  - cbv zeta.
+    replace (r1 * ((q11 * c0 + q12 * s0) * ct - sg * (sg * (- q12 * c0 + q11 * s0)) * st) * C -
+             r2 * (sg * (- q12 * c0 + q11 * s0) * ct + sg * (q11 * c0 + q12 * s0) * st) * S)
       with (r1 * ((q11 * c0 + q12 * s0) * ct - (sg * sg) * (- q12 * c0 + q11 * s0) * st) * C -
-            r2 * (sg * ((- q12 * c0 + q11 * s0) * ct + (q11 * c0 + q12 * s0) * st)) * S) by ring.
-    rewrite Hsg. ring_simplify.
-    replace (sg ^ 2) with (sg * sg) by ring. rewrite ?Hsg. ring.
-  - replace (r1 * ((q11 * c0 + q12 * s0) * ct - sg * (- sg * q12 * c0 + sg * q11 * s0) * st) * S +
-             r2 * ((- sg * q12 * c0 + sg * q11 * s0) * ct + sg * (q11 * c0 + q12 * s0) * st) * C)
+            r2 * (sg * (- q12 * c0 + q11 * s0) * ct + sg * (q11 * c0 + q12 * s0) * st) * S) by ring.
+    rewrite Hsg. ring.
+  - cbv zeta.
+    replace (r1 * ((q11 * c0 + q12 * s0) * ct - sg * (sg * (- q12 * c0 + q11 * s0)) * st) * S +
+             r2 * (sg * (- q12 * c0 + q11 * s0) * ct + sg * (q11 * c0 + q12 * s0) * st) * C)
       with (r1 * ((q11 * c0 + q12 * s0) * ct - (sg * sg) * (- q12 * c0 + q11 * s0) * st) * S +
-            r2 * (sg * ((- q12 * c0 + q11 * s0) * ct + (q11 * c0 + q12 * s0) * st)) * C) by ring.
-    rewrite Hsg. ring_simplify.
-    replace (sg ^ 2) with (sg * sg) by ring. rewrite ?Hsg. ring.
+            r2 * (sg * (- q12 * c0 + q11 * s0) * ct + sg * (q11 * c0 + q12 * s0) * st) * C) by ring.
+    rewrite Hsg. ring.
 Qed.
 
 (** * the repaired [Affine * Arc] *)
@@ -224,11 +249,256 @@ Proof.
   destruct A as [a b c d e f], arc as [[cx cy] [rx ry] th0 dl phi].
   cbn [arc_radii vx vy]. intros Hdet Hrx Hry.
   unfold aff_mul_arc, ellipse_radii_and_rotation.
-  set (M := el_inner (aff_mul_ellipse (mkAffine a b c d e f)
-                        (ellipse_new (arc_center (mkArc (mkPoint cx cy) (mkVec2 rx ry) th0 dl phi))
-                                     (arc_radii (mkArc (mkPoint cx cy) (mkVec2 rx ry) th0 dl phi))
-                                     (arc_x_rotation (mkArc (mkPoint cx cy) (mkVec2 rx ry) th0 dl phi))))).
+  cbn [arc_center arc_radii arc_x_rotation arc_start_angle arc_sweep_angle].
+  set (M := el_inner (aff_mul_ellipse (mkAffine a b c d e f) (ellipse_new (mkPoint cx cy) (mkVec2 rx ry) phi))).
+  assert (HM : M = mkAffine ((a * cos phi + c * sin phi) * rx) ((b * cos phi + d * sin phi) * rx)
+                            ((- a * sin phi + c * cos phi) * ry) ((- b * sin phi + d * cos phi) * ry)
+                            (a * cx + c * cy + e) (b * cx + d * cy + f)).
+  { unfold M. aff_unfold. rewrite (Rabs_pos_eq rx), (Rabs_pos_eq ry) by lra. rec_eq; ring. }
+  assert (Hctr : ellipse_center (aff_mul_ellipse (mkAffine a b c d e f) (ellipse_new (mkPoint cx cy) (mkVec2 rx ry) phi))
+                 = mkPoint (a * cx + c * cy + e) (b * cx + d * cy + f)).
+  { fold M. unfold ellipse_center, aff_translation, to_point. fold M. rewrite HM. reflexivity. }
+  rewrite Hctr. clear Hctr.
   pose proof (svd_invariants M) as Hinv. pose proof (svd_decomposition M) as Hdec.
   destruct (aff_svd M) as [[r1 r2] phi'] eqn:Hsvd.
   cbv zeta in Hinv, Hdec. cbn [fst snd vx vy] in Hinv, Hdec.
-  Show.
+  rewrite HM in Hinv, Hdec. cbn [aa ab ac ad] in Hinv, Hdec. clear HM Hsvd M.
+  unfold aff_determinant in Hinv, Hdet. cbn [aa ab ac ad] in Hinv, Hdet. rs_unfold.
+  pose proof (sin2_cos2 phi) as Hphi. pose proof (sin2_cos2 phi') as Hphi'. pose proof (sin2_cos2 th0) as Hth0.
+  unfold Rsqr in Hphi, Hphi', Hth0.
+  set (ma := (a * cos phi + c * sin phi) * rx) in *. set (mb := (b * cos phi + d * sin phi) * rx) in *.
+  set (mc := (- a * sin phi + c * cos phi) * ry) in *. set (md := (- b * sin phi + d * cos phi) * ry) in *.
+  assert (HdM : ma * md - mb * mc = (a * d - b * c) * (rx * ry)).
+  { unfold ma, mb, mc, md.
+    replace ((a * cos phi + c * sin phi) * rx * ((- b * sin phi + d * cos phi) * ry) -
+             (b * cos phi + d * sin phi) * rx * ((- a * sin phi + c * cos phi) * ry))
+      with ((sin phi * sin phi + cos phi * cos phi) * ((a * d - b * c) * (rx * ry))) by ring.
+    rewrite Hphi. ring. }
+  destruct Hinv as ((Hr2 & Hr21) & _ & Hprod). rewrite HdM in Hprod.
+  assert (Hrr : 0 < rx * ry) by (apply Rmult_lt_0_compat; assumption).
+  assert (Hk : 0 < r1 * r2).
+  { rewrite Hprod, Rabs_mult, (Rabs_pos_eq (rx * ry)) by lra.
+    apply Rmult_lt_0_compat; [apply Rabs_pos_lt; exact Hdet|exact Hrr]. }
+  assert (Hr1p : 0 < r1) by nra. assert (Hr2p : 0 < r2) by nra.
+  destruct Hdec as (Ha & Hb & Hab).
+  (* the orientation sign *)
+  set (sg := if Rltb (a * d - b * c) 0 then -1 else 1).
+  assert (Hsg : sg * sg = 1) by (unfold sg; destruct (Rltb (a * d - b * c) 0); ring).
+  assert (Hdsg : ma * md - mb * mc = sg * (r1 * r2)).
+  { rewrite Hprod, HdM, Rabs_mult, (Rabs_pos_eq (rx * ry)) by lra. unfold sg.
+    destruct (Rltb_spec (a * d - b * c) 0).
+    - rewrite Rabs_left by lra. ring.
+    - rewrite Rabs_right by lra. ring. }
+  destruct (arc_core ma mb mc md (cos phi') (sin phi') r1 r2 sg (cos th0) (sin th0) (cos (t * dl)) (sin (t * dl))
+              Hphi' Hr1p Hr2p Hsg Hth0 Ha Hb Hab Hdsg) as (ux & uy & Hu & Hlx & Hly & Hx & Hy).
+  cbv zeta in Hlx, Hly, Hx, Hy.
+  (* the re-derived start angle points along (ux, uy) *)
+  unfold arc_eval, arc_point_at. cbn [arc_center arc_radii arc_x_rotation arc_start_angle arc_sweep_angle].
+  match goal with |- context [Ratan2 ?y ?x] => set (Y := y); set (X := x) end.
+  assert (HY : Y = (r1 * r2) * uy /\ X = (r1 * r2) * ux).
+  { unfold Y, X. aff_unfold. rewrite cos_neg, sin_neg.
+    split.
+    - replace ((((a * (cx + (rx * cos th0 * cos phi - ry * sin th0 * sin phi)) +
+                  c * (cy + (rx * cos th0 * sin phi + ry * sin th0 * cos phi)) + e - (a * cx + c * cy + e)) * - sin phi' +
+                 (b * (cx + (rx * cos th0 * cos phi - ry * sin th0 * sin phi)) +
+                  d * (cy + (rx * cos th0 * sin phi + ry * sin th0 * cos phi)) + f - (b * cx + d * cy + f)) * cos phi')) * r1)
+        with ((- sin phi' * (ma * cos th0 + mc * sin th0) + cos phi' * (mb * cos th0 + md * sin th0)) * r1)
+        by (unfold ma, mb, mc, md; ring).
+      rewrite Hly. ring.
+    - replace ((((a * (cx + (rx * cos th0 * cos phi - ry * sin th0 * sin phi)) +
+                  c * (cy + (rx * cos th0 * sin phi + ry * sin th0 * cos phi)) + e - (a * cx + c * cy + e)) * cos phi' -
+                 (b * (cx + (rx * cos th0 * cos phi - ry * sin th0 * sin phi)) +
+                  d * (cy + (rx * cos th0 * sin phi + ry * sin th0 * cos phi)) + f - (b * cx + d * cy + f)) * - sin phi')) * r2)
+        with ((cos phi' * (ma * cos th0 + mc * sin th0) + sin phi' * (mb * cos th0 + md * sin th0)) * r2)
+        by (unfold ma, mb, mc, md; ring).
+      rewrite Hlx. ring. }
+  destruct HY as [EY EX]. clearbody X Y. subst X Y.
+  destruct (atan2_unit (r1 * r2) ux uy Hk Hu) as [Hcs Hss].
+  set (st' := Ratan2 (r1 * r2 * uy) (r1 * r2 * ux)) in *.
+  assert (Hsweep : (if Rltb (aff_determinant (mkAffine a b c d e f)) 0 then - dl else dl) = sg * dl).
+  { unfold aff_determinant. cbn [aa ab ac ad]. rs_unfold. unfold sg.
+    destruct (Rltb (a * d - b * c) 0); ring. }
+  rs_unfold. rewrite Hsweep.
+  assert (Hcb : cos (st' + t * (sg * dl)) = ux * cos (t * dl) - sg * uy * sin (t * dl)
+                /\ sin (st' + t * (sg * dl)) = uy * cos (t * dl) + sg * ux * sin (t * dl)).
+  { rewrite cos_plus, sin_plus, Hcs, Hss. unfold sg.
+    destruct (Rltb (a * d - b * c) 0).
+    - replace (t * (-1 * dl)) with (- (t * dl)) by ring. rewrite cos_neg, sin_neg. split; ring.
+    - replace (t * (1 * dl)) with (t * dl) by ring. split; ring. }
+  destruct Hcb as [Hcb Hsb].
+  aff_unfold. rewrite Hcb, Hsb, cos_plus, sin_plus.
+  f_equal.
+  - replace (a * (cx + (rx * (cos th0 * cos (t * dl) - sin th0 * sin (t * dl)) * cos phi -
+                       ry * (sin th0 * cos (t * dl) + cos th0 * sin (t * dl)) * sin phi)) +
+             c * (cy + (rx * (cos th0 * cos (t * dl) - sin th0 * sin (t * dl)) * sin phi +
+                       ry * (sin th0 * cos (t * dl) + cos th0 * sin (t * dl)) * cos phi)) + e)
+      with (a * cx + c * cy + e + (ma * (cos th0 * cos (t * dl) - sin th0 * sin (t * dl)) +
+                                   mc * (sin th0 * cos (t * dl) + cos th0 * sin (t * dl))))
+      by (unfold ma, mc; ring).
+    rewrite <- Hx. ring.
+  - replace (b * (cx + (rx * (cos th0 * cos (t * dl) - sin th0 * sin (t * dl)) * cos phi -
+                       ry * (sin th0 * cos (t * dl) + cos th0 * sin (t * dl)) * sin phi)) +
+             d * (cy + (rx * (cos th0 * cos (t * dl) - sin th0 * sin (t * dl)) * sin phi +
+                       ry * (sin th0 * cos (t * dl) + cos th0 * sin (t * dl)) * cos phi)) + f)
+      with (b * cx + d * cy + f + (mb * (cos th0 * cos (t * dl) - sin th0 * sin (t * dl)) +
+                                   md * (sin th0 * cos (t * dl) + cos th0 * sin (t * dl))))
+      by (unfold mb, md; ring).
+    rewrite <- Hy. ring.
+Qed.
+
+(** * the pinned [Affine * Arc] moves arcs *)
+
+(** svd of a diagonal matrix diag(p, q) with |p| > |q|: radii (|p|, |q|), rotation 0 *)
+Lemma svd_diag (p q e f : R) :
+  q * q < p * p -> aff_svd (mkAffine p 0 0 q e f) = (mkVec2 (Rabs p) (Rabs q), 0).
+Proof.
+  intros Hpq. cbv [aff_svd aa ab ac ad]. rs_unfold. cbv [Q2R Qnum Qden]. cbn [powerRZ]. change (Pos.to_nat 2) with 2%nat.
+  replace ((p * p - 0 * 0 + 0 * 0 - q * q) ^ 2 + 4 * (p * 0 + 0 * q) ^ 2) with (Rsqr (p * p - q * q)) by (unfold Rsqr; ring).
+  rewrite sqrt_Rsqr by lra.
+  replace (1 * / 2 * (p * p + 0 * 0 + 0 * 0 + q * q + (p * p - q * q))) with (Rsqr p) by (unfold Rsqr; field).
+  replace (1 * / 2 * (p * p + 0 * 0 + 0 * 0 + q * q - (p * p - q * q))) with (Rsqr q) by (unfold Rsqr; field).
+  rewrite !sqrt_Rsqr_abs.
+  replace (2 * (p * 0 + 0 * q)) with 0 by ring.
+  unfold Ratan2. destruct (Rlt_dec 0 (p * p - 0 * 0 + 0 * 0 - q * q)) as [|Hn]; [|exfalso; apply Hn; lra].
+  unfold Rdiv. rewrite Rmult_0_l, atan_0. f_equal. ring.
+Qed.
+
+(** the identity map moves the start point of an arc whose x_rotation is pi *)
+Lemma arc_pinned_refuted_identity :
+  exists (arc : Arc R),
+    0 < vx (arc_radii arc) /\ 0 < vy (arc_radii arc)
+    /\ arc_eval (aff_mul_arc_pinned aff_identity arc) 0 <> aff_apply aff_identity (arc_eval arc 0).
+Proof.
+  exists (mkArc (mkPoint 0 0) (mkVec2 2 1) 0 1 PI). cbn [arc_radii vx vy]. split; [lra|split; [lra|]].
+  unfold aff_mul_arc_pinned, ellipse_radii_and_rotation.
+  cbn [arc_center arc_radii arc_x_rotation arc_start_angle arc_sweep_angle].
+  assert (HM : el_inner (aff_mul_ellipse aff_identity (ellipse_new (mkPoint 0 0) (mkVec2 2 1) PI))
+               = mkAffine (-2) 0 0 (-1) 0 0).
+  { aff_unfold. rewrite cos_PI, sin_PI, (Rabs_pos_eq 2), (Rabs_pos_eq 1) by lra. rec_eq; ring. }
+  rewrite HM, svd_diag by lra.
+  intros He. apply (f_equal px) in He. revert He.
+  unfold ellipse_center. rewrite HM. clear HM. aff_unfold.
+  replace (0 + 0 * 1) with 0 by ring. rewrite cos_0, sin_0, cos_PI, sin_PI.
+  replace (Rabs (-2)) with 2 by (rewrite Rabs_left; lra). lra.
+Qed.
+
+(** a reflection keeps the direction of traversal: the end point of the image is not the image
+    of the end point *)
+Lemma arc_pinned_refuted_reflection :
+  exists (arc : Arc R),
+    0 < vx (arc_radii arc) /\ 0 < vy (arc_radii arc)
+    /\ aff_determinant (aff_FLIP_Y (T := R)) <> 0
+    /\ arc_eval (aff_mul_arc_pinned aff_FLIP_Y arc) 1 <> aff_apply aff_FLIP_Y (arc_eval arc 1).
+Proof.
+  exists (mkArc (mkPoint 0 0) (mkVec2 2 1) 0 (PI / 2) 0). cbn [arc_radii vx vy].
+  split; [lra|split; [lra|split]].
+  { aff_unfold. lra. }
+  unfold aff_mul_arc_pinned, ellipse_radii_and_rotation.
+  cbn [arc_center arc_radii arc_x_rotation arc_start_angle arc_sweep_angle].
+  assert (HM : el_inner (aff_mul_ellipse aff_FLIP_Y (ellipse_new (mkPoint 0 0) (mkVec2 2 1) 0))
+               = mkAffine 2 0 0 (-1) 0 0).
+  { aff_unfold. rewrite cos_0, sin_0, (Rabs_pos_eq 2), (Rabs_pos_eq 1) by lra. rec_eq; ring. }
+  rewrite HM, svd_diag by lra.
+  intros He. apply (f_equal py) in He. revert He.
+  unfold ellipse_center. rewrite HM. clear HM. aff_unfold.
+  replace (0 + 1 * (PI / 2)) with (PI / 2) by ring.
+  rewrite cos_0, sin_0, cos_PI2, sin_PI2.
+  replace (Rabs (-1)) with 1 by (rewrite Rabs_left; lra). lra.
+Qed.
+
+(** where the pinned code is right: it agrees with the repaired one whenever the re-derived
+    angles are the copied ones *)
+Lemma arc_pinned_vs_repaired (A : Affine R) (arc : Arc R) :
+  arc_start_angle (aff_mul_arc A arc) = arc_start_angle arc ->
+  arc_sweep_angle (aff_mul_arc A arc) = arc_sweep_angle arc ->
+  aff_mul_arc_pinned A arc = aff_mul_arc A arc.
+Proof.
+  unfold aff_mul_arc, aff_mul_arc_pinned.
+  destruct (ellipse_radii_and_rotation _) as [radii rot]. cbn [arc_start_angle arc_sweep_angle].
+  intros -> ->. reflexivity.
+Qed.
+
+Lemma arc_pinned_refuted :
+  (exists arc : Arc R,
+     0 < vx (arc_radii arc) /\ 0 < vy (arc_radii arc)
+     /\ arc_eval (aff_mul_arc_pinned aff_identity arc) 0 <> aff_apply aff_identity (arc_eval arc 0))
+  /\ (exists arc : Arc R,
+        0 < vx (arc_radii arc) /\ 0 < vy (arc_radii arc) /\ aff_determinant (aff_FLIP_Y (T := R)) <> 0
+        /\ arc_eval (aff_mul_arc_pinned aff_FLIP_Y arc) 1 <> aff_apply aff_FLIP_Y (arc_eval arc 1)).
+Proof. split; [exact arc_pinned_refuted_identity|exact arc_pinned_refuted_reflection]. Qed.
+
+(** * (centre, radii, rotation) as reported by [radii_and_rotation] describe the ellipse through
+    the image points: every point of the curve satisfies the implicit equation in the reported frame *)
+Lemma svd_radii_pos (m : Affine R) :
+  aff_determinant m <> 0 -> 0 < vx (fst (aff_svd m)) /\ 0 < vy (fst (aff_svd m)).
+Proof.
+  intros Hd. destruct (svd_invariants m) as ((H2 & H21) & _ & Hp). cbv zeta in *.
+  assert (0 < Rabs (aff_determinant m)) by (apply Rabs_pos_lt; exact Hd).
+  split; nra.
+Qed.
+
+Lemma ellipse_implicit (m : Affine R) (th : R) :
+  aff_determinant m <> 0 ->
+  let r := fst (aff_svd m) in let phi := snd (aff_svd m) in
+  let p := ellipse_point (mkEllipse m) th in
+  let dx := px p - ae m in let dy := py p - af m in
+  let lx := cos phi * dx + sin phi * dy in let ly := - sin phi * dx + cos phi * dy in
+  (lx / vx r) * (lx / vx r) + (ly / vy r) * (ly / vy r) = 1.
+Proof.
+  intros Hd.
+  destruct (svd_radii_pos m Hd) as [Hr1 Hr2].
+  destruct (svd_invariants m) as (_ & _ & Hp). destruct (svd_decomposition m) as (Ha & Hb & Hab).
+  cbv zeta in *.
+  destruct (aff_svd m) as [[r1 r2] phi]. cbn [fst snd vx vy] in *.
+  destruct m as [a b c d e f]. unfold aff_determinant in Hd, Hp. cbn [aa ab ac ad ae af] in *. rs_unfold.
+  unfold ellipse_point. cbn [el_inner]. aff_unfold.
+  pose proof (sin2_cos2 phi) as Hphi. pose proof (sin2_cos2 th) as Hth. unfold Rsqr in Hphi, Hth.
+  set (sg := if Rltb (a * d - b * c) 0 then -1 else 1).
+  assert (Hsg : sg * sg = 1) by (unfold sg; destruct (Rltb (a * d - b * c) 0); ring).
+  assert (Hdsg : a * d - b * c = sg * (r1 * r2)).
+  { rewrite Hp. unfold sg. destruct (Rltb_spec (a * d - b * c) 0).
+    - rewrite Rabs_left by lra. ring.
+    - rewrite Rabs_right by lra. ring. }
+  destruct (arc_core a b c d (cos phi) (sin phi) r1 r2 sg (cos th) (sin th) 1 0
+              Hphi Hr1 Hr2 Hsg Hth Ha Hb Hab Hdsg) as (ux & uy & Hu & Hlx & Hly & _).
+  cbv zeta in Hlx, Hly.
+  replace (cos phi * (a * cos th + c * sin th + e - e) + sin phi * (b * cos th + d * sin th + f - f))
+    with (cos phi * (a * cos th + c * sin th) + sin phi * (b * cos th + d * sin th)) by ring.
+  replace (- sin phi * (a * cos th + c * sin th + e - e) + cos phi * (b * cos th + d * sin th + f - f))
+    with (- sin phi * (a * cos th + c * sin th) + cos phi * (b * cos th + d * sin th)) by ring.
+  rewrite Hlx, Hly.
+  replace (r1 * ux / r1) with ux by (field; lra). replace (r2 * uy / r2) with uy by (field; lra).
+  exact Hu.
+Qed.
+
+(** the radii reported for [Ellipse::new(c, (rx, ry), rot)] are the larger and the smaller of |rx|, |ry| *)
+Lemma ellipse_new_radii (c : Point R) (radii : Vec2 R) (rot : R) :
+  let r := fst (ellipse_radii_and_rotation (ellipse_new c radii rot)) in
+  vx r = Rmax (Rabs (vx radii)) (Rabs (vy radii)) /\ vy r = Rmin (Rabs (vx radii)) (Rabs (vy radii)).
+Proof.
+  destruct c as [cx cy], radii as [rx ry]. cbn [vx vy]. unfold ellipse_radii_and_rotation.
+  set (M := el_inner (ellipse_new (mkPoint cx cy) (mkVec2 rx ry) rot)).
+  destruct (svd_invariants M) as ((H2 & H21) & Hs & Hp). cbv zeta in *.
+  assert (HM : M = mkAffine (cos rot * Rabs rx) (sin rot * Rabs rx) (- sin rot * Rabs ry) (cos rot * Rabs ry) cx cy).
+  { unfold M. aff_unfold. rec_eq; ring. }
+  destruct (fst (aff_svd M)) as [u v]. cbn [vx vy] in *.
+  rewrite HM in Hs, Hp. unfold aff_determinant in Hp. cbn [aa ab ac ad] in Hs, Hp. rs_unfold.
+  pose proof (sin2_cos2 rot) as Hrot. unfold Rsqr in Hrot.
+  set (p := Rabs rx) in *. set (q := Rabs ry) in *.
+  assert (Hp0 : 0 <= p) by apply Rabs_pos. assert (Hq0 : 0 <= q) by apply Rabs_pos.
+  assert (Hs' : u * u + v * v = p * p + q * q).
+  { rewrite Hs. replace (cos rot * p * (cos rot * p) + sin rot * p * (sin rot * p) + - sin rot * q * (- sin rot * q) + cos rot * q * (cos rot * q))
+      with ((sin rot * sin rot + cos rot * cos rot) * (p * p + q * q)) by ring. rewrite Hrot. ring. }
+  assert (Hp' : u * v = p * q).
+  { rewrite Hp. replace (cos rot * p * (cos rot * q) - sin rot * p * (- sin rot * q))
+      with ((sin rot * sin rot + cos rot * cos rot) * (p * q)) by ring.
+    rewrite Hrot, Rmult_1_l. apply Rabs_pos_eq. apply Rmult_le_pos; assumption. }
+  (* (u+v)^2 = (p+q)^2 and (u-v)^2 = (p-q)^2 *)
+  assert (Hsum : u + v = p + q).
+  { assert ((u + v) * (u + v) = (p + q) * (p + q)) by nra.
+    assert (0 <= u + v) by lra. assert (0 <= p + q) by lra. nra. }
+  assert (Hdiff : (u - v) * (u - v) = (p - q) * (p - q)) by nra.
+  unfold Rmax, Rmin. destruct (Rle_dec p q) as [Hpq|Hpq].
+  - assert (u - v = q - p) by nra. lra.
+  - assert (u - v = p - q) by nra. lra.
+Qed.
